@@ -550,6 +550,9 @@ class Engine:
                 goal = z3.Or(whens) if whens else z3.BoolVal(False)
                 self.oblige(f, f"raises-only-when:{exn}@{getattr(node, 'lineno', 0)}", goal, "exc", node,
                             detail=f"{exn} raised at line {getattr(node, 'lineno', 0)} outside the declared conditions")
+                if not whens:
+                    # undeclared exception: the single obligation is that the path is infeasible
+                    continue
                 c = Ctx(self, h0, f.heap, args, None)
                 self.frame_obligations(f, h0, f.heap, contract.exc_modifies(c0, exn),
                                        f"exc-unchanged:{exn}@{getattr(node, 'lineno', 0)}")
@@ -932,6 +935,10 @@ class Engine:
                 raise OutsideSubset(f"cache key {idx.t!r} is not a @_dispatcher_cache method name")
             st.heap = st.heap.put(f"$cache_has:{idx.t}", lst.t, z3.IntVal(1)) \
                 .put(f"$cache_val:{idx.t}", lst.t, to_int(v))
+            return [st]
+        if lst.ty.kind == "any" and idx.ty.kind == "str" and isinstance(idx.t, str):
+            # opaque mapping (e.g. Schedule.metadata): one ghost field per constant key
+            st.heap = st.heap.put(f"$item:{idx.t}", lst.t, to_int(v))
             return [st]
         if lst.ty.kind != "list":
             raise OutsideSubset(f"item store on {lst.ty}")
@@ -1320,6 +1327,9 @@ class Engine:
             raise OutsideSubset(f"class attribute {obj.t}.{attr}")
         if k in ("list", "deque", "set", "cachedict"):
             return [(st, Val(Ty("listmethod"), (obj, attr)))]
+        if k == "classof" and attr == "__name__":
+            # the class name of the object's dynamic class, represented by its class tag
+            return [(st, Val(Ty("int"), st.heap.get("$type", obj.t)))]
         if k == "func" and attr == "__name__":
             t = obj.t
             nm = getattr(t, "method_name", None)
